@@ -141,8 +141,8 @@ func plant(r *rng.R, cs *gen.Case) *fault {
 				if m, ok := s.Sent.E.(*gen.Mon); ok {
 					if n, ok := m.Amount.(*gen.Num); ok {
 						n.Text = "-" + strings.TrimPrefix(n.Text, "-")
-						if n.Text == "-0" {
-							n.Text = "-1"
+						if strings.Trim(n.Text, "-0") == "" {
+							n.Text = "-1" // minus zero (however many zeros) is not negative
 						}
 						return &fault{kind: "negative-amount", classes: []string{model.ENegativeAmount}}
 					}
@@ -447,6 +447,7 @@ func runC12(c *fw.Ctx) {
 		for k := 1; k <= N; k++ {
 			st := real.NewStore(real.Exact, cs.Balances, cs.Meta)
 			st.FailAt = k
+			st.FailShape = k + i
 			st.FailMsg = fmt.Sprintf("injected-store-failure-%s-%d", strings.ReplaceAll(id, "/", "-"), k)
 			o := real.Run(po.Result, cs.Vars, real.FlagsOf(cs), st)
 			c.Eval()
